@@ -92,12 +92,23 @@ Theorem identity_passthrough_unconditional_refuted :
 Proof. exact identity_not_enabled_l. Qed.
 Print Assumptions identity_passthrough_unconditional_refuted.
 
-(* ---- clause 2: encoding not enabled => 400 before the handler ------------------------------------ *)
+(* ---- clause 2: encoding not enabled => 400 before the handler ------------------------------------
+   "enabled" = named by the enabled list AND having a decoder (one of the seven names of the default
+   list), or registered as a custom decoder.  Every request, every behaviour of the decoders. *)
 Theorem unsupported_rejected : forall dec cdec sc w,
-  ~ In (hget w.(w_ce)) (eff_algs sc) -> ~ In (hget w.(w_ce)) (map fst sc.(s_custom)) ->
+  ~ In (hget w.(w_ce)) (map fst sc.(s_custom)) ->
+  (~ In (hget w.(w_ce)) (eff_algs sc) \/ ~ In (hget w.(w_ce)) default_algs) ->
   server dec cdec sc w = Rejected 400.
 Proof. exact unsupported_rejected_l. Qed.
 Print Assumptions unsupported_rejected.
+
+(* in particular a name that the enabled list contains but that has no decoder (br, identity, GZIP ...):
+   rejected with 400 before the handler runs — not a panic (the defect repaired in /repo adaa5d5f4) *)
+Theorem enabled_name_without_decoder_rejected : forall dec cdec sc w,
+  ~ In (hget w.(w_ce)) (map fst sc.(s_custom)) -> ~ In (hget w.(w_ce)) default_algs ->
+  server dec cdec sc w = Rejected 400.
+Proof. exact (fun dec cdec sc w H1 H2 => unsupported_rejected_l dec cdec sc w H1 (or_intror H2)). Qed.
+Print Assumptions enabled_name_without_decoder_rejected.
 
 (* the handler runs only if the encoding has a decoder, and then reads a prefix of what that decoder
    delivers (of the raw body for a (nil, nil) decoder) *)
@@ -113,30 +124,48 @@ Theorem handler_runs_only_behind_a_decoder : forall dec cdec sc w ce cl s,
 Proof. exact handler_reads_prefix_l. Qed.
 Print Assumptions handler_runs_only_behind_a_decoder.
 
+(* ... more precisely only behind a non-nil custom decoder, or for a name that is both in the enabled
+   list and one of the seven names with a decoder *)
+Theorem handler_runs_only_for_enabled_available_or_custom : forall dec cdec sc w ce cl s,
+  server dec cdec sc w = Handled ce cl s ->
+  (exists i, clookup sc.(s_custom) (hget (w_ce w)) = Some (Some i)) \/
+  (clookup sc.(s_custom) (hget (w_ce w)) = None /\ In (hget (w_ce w)) (eff_algs sc) /\ In (hget (w_ce w)) default_algs).
+Proof. exact handler_decoder_origin_l. Qed.
+Print Assumptions handler_runs_only_for_enabled_available_or_custom.
+
 Theorem decoder_table : forall sc k,
   tget (decoders sc) k =
   match clookup sc.(s_custom) k with
   | Some i => Some (SCustom i)
-  | None => if str_mem k (eff_algs sc) then Some (slot_of_name k) else None
+  | None => if str_mem k (eff_algs sc) then slot_of_name k else None
   end.
 Proof. exact tget_decoders. Qed.
 Print Assumptions decoder_table.
 
+Theorem names_with_a_decoder : forall k, slot_of_name k = None <-> ~ In k default_algs.
+Proof. exact slot_of_name_none. Qed.
+Print Assumptions names_with_a_decoder.
+
 Theorem decoder_init_error_rejected : forall dec cdec sc w c,
   clookup sc.(s_custom) (hget (w_ce w)) = None -> In (hget (w_ce w)) (eff_algs sc) ->
-  slot_of_name (hget (w_ce w)) = SCodec c ->
+  slot_of_name (hget (w_ce w)) = Some (SCodec c) ->
   dec c (max_bytes (eff_max sc) (w_body w, E_EOF)) = DInitErr ->
   server dec cdec sc w = Rejected 400.
 Proof. exact init_error_rejected_l. Qed.
 Print Assumptions decoder_init_error_rejected.
 
-(* faithful to the code: an enabled name without an available decoder is bound to a nil func; a
-   request carrying it makes ServeHTTP panic (the handler does not run, the client gets no 400) *)
-Theorem nil_decoder_panics : forall dec cdec sc w,
-  clookup sc.(s_custom) (hget (w_ce w)) = None -> In (hget (w_ce w)) (eff_algs sc) ->
-  slot_of_name (hget (w_ce w)) = SNil -> server dec cdec sc w = Panicked.
-Proof. exact nil_decoder_panics_l. Qed.
-Print Assumptions nil_decoder_panics.
+(* What can still make ServeHTTP call a nil func: exactly a custom decoder registered as nil,
+   WithDecoder(key, nil) (an API misuse; the option stores the func verbatim), selected by the request's
+   encoding.  No enabled list, header or body can. *)
+Theorem server_panics_iff_nil_custom_decoder : forall dec cdec sc w,
+  server dec cdec sc w = Panicked <-> clookup sc.(s_custom) (hget (w_ce w)) = Some None.
+Proof. exact panics_iff_nil_custom_l. Qed.
+Print Assumptions server_panics_iff_nil_custom_decoder.
+
+Theorem server_never_panics : forall dec cdec sc w,
+  (forall k, ~ In (k, None) sc.(s_custom)) -> server dec cdec sc w <> Panicked.
+Proof. exact no_panic_without_nil_custom_l. Qed.
+Print Assumptions server_never_panics.
 
 (* ---- clause 3: the limit, counted after decompression --------------------------------------------
    EVERY server configuration, EVERY request (any header, any body), EVERY behaviour of the codecs
@@ -160,7 +189,7 @@ Print Assumptions limit_is_positive.
    exactly L bytes (the first L bytes of the decoded stream) *)
 Theorem limit_exact_decoded : forall dec cdec sc w c d e,
   clookup sc.(s_custom) (hget (w_ce w)) = None -> In (hget (w_ce w)) (eff_algs sc) ->
-  slot_of_name (hget (w_ce w)) = SCodec c ->
+  slot_of_name (hget (w_ce w)) = Some (SCodec c) ->
   dec c (max_bytes (eff_max sc) (w_body w, E_EOF)) = DStream (d, e) ->
   (Z.of_nat (List.length d) > eff_max sc)%Z ->
   server dec cdec sc w = Handled [] (-1) (firstn (Z.to_nat (eff_max sc)) d, E_TOOLARGE) /\
@@ -215,7 +244,7 @@ Theorem client_body_error_sends_nothing : forall enc cc r c,
 Proof. exact client_body_error_l. Qed.
 Print Assumptions client_body_error_sends_nothing.
 
-Theorem writer_and_reader_agree : forall t c, writer_codec t = Some c -> slot_of_name t = SCodec c.
+Theorem writer_and_reader_agree : forall t c, writer_codec t = Some c -> slot_of_name t = Some (SCodec c).
 Proof. exact writer_reader_agree. Qed.
 Print Assumptions writer_and_reader_agree.
 
